@@ -116,6 +116,36 @@ CHECKS = {
             "status) must match a model written from the man page, moving LBZIP2/BZIP2/BZIP tokens to the front of the "
             "command line must change nothing, and inserting the documented no-op options or --small must change nothing.",
             "Trusted: the model's reading of the man page (usage text and lbzip2.1).", "4/C22"),
+    "C16": ("fault_enumeration",
+            "exhaustive system-call-position fault / signal injection (LD_PRELOAD shim) over FILE-operand scenarios; two-state "
+            "file-system invariant as oracle",
+            "For compress/decompress x -k x small/multi-block x one/two operands, every position of every data-path system "
+            "call is used once as an injection point for an error return and for SIGINT, SIGTERM and SIGKILL (before and "
+            "after the call), plus wall-clock signals and a corrupt operand. Afterwards each operand must be in state A "
+            "(input intact, no output) or B (complete output, input removed unless -k) with a matching exit status; after "
+            "SIGKILL the input is intact unless a complete output exists. Exhaustive per scenario.",
+            "Trusted: rt/iofault.c delivers faults exactly at the counted call.", "4/C16"),
+    "C17": ("exploration",
+            "Hypothesis-generated directory scenarios x flag sets; executable model of the man page as oracle",
+            "Operands of type regular/empty/symlink/hard-linked/directory/missing with generated names, suffixes, modes, "
+            "nanosecond timestamps and optional pre-existing outputs are processed with generated subsets of -k -c -t -f in "
+            "both modes; the resulting directory, output contents and metadata, stdout, exit status and presence of a warning "
+            "must equal the prediction of a model written from the manual.",
+            "Trusted: the model's reading of man/lbzip2.1; runs as root.", "4/C17"),
+    "C18": ("exploration",
+            "Hypothesis-generated operand sequences; metamorphic oracle: one invocation over N operands == N single invocations",
+            "Sequences of 2-6 operands of mixed kinds (compressible, random, empty, multi-block, skipped, missing, corrupt) "
+            "are processed once in a single invocation and once operand by operand in an identical directory; final trees "
+            "(bytes, modes, mtimes), -c output and combined exit status must agree, including the stop-at-fatal rule.",
+            "Trusted: determinism of compression across invocations (C03).", "4/C18"),
+    "C21": ("fault_enumeration",
+            "exhaustive read/write-position error injection (LD_PRELOAD shim) + real kernel faults on filter runs; termination "
+            "and exit-status oracle",
+            "For compress / decompress / -cdf copy filters every read position gets EIO and every write position gets EPIPE, "
+            "EFBIG, ENOSPC, EIO (EPIPE also with SIGPIPE ignored); real faults: early-closing reader, /dev/full, RLIMIT_FSIZE. "
+            "The process must end (a hang must reproduce three times), with status 1 or death by SIGPIPE/SIGXFSZ where that "
+            "is the default action, never status 0, with a diagnostic unless the error is EPIPE/EFBIG. Exhaustive per scenario.",
+            "Trusted: rt/iofault.c returns errors the way the kernel does.", "4/C21"),
 }
 
 NOT_YET = "not built yet in this round (planned, see DESIGN.md section 7b)"
